@@ -97,6 +97,30 @@ func c09Entries() []c09Entry {
 			var p lorawan.PHYPayload
 			return p.UnmarshalText([]byte(base64.StdEncoding.EncodeToString(b)))
 		}},
+		{name: "PHYPayload.UnmarshalBinary(target in use)", call: func(r *core.RNG, b []byte) error {
+			// the target is not a zero value: it holds what an earlier use (or a caller's template) left there,
+			// including interface fields that hold typed nil pointers
+			var mp lorawan.Payload
+			switch len(b) % 6 {
+			case 0:
+				mp = (*lorawan.DataPayload)(nil)
+			case 1:
+				mp = (*lorawan.MACPayload)(nil)
+			case 2:
+				mp = (*lorawan.JoinAcceptPayload)(nil)
+			case 3:
+				mp = &lorawan.DataPayload{Bytes: []byte{1, 2, 3}}
+			case 4:
+				mp = &lorawan.MACPayload{FPort: new(uint8), FRMPayload: []lorawan.Payload{(*lorawan.DataPayload)(nil)}}
+			default:
+				mp = &userPayload{}
+			}
+			p := lorawan.PHYPayload{MHDR: lorawan.MHDR{MType: lorawan.Proprietary}, MACPayload: mp}
+			if len(b)%2 == 0 {
+				return p.UnmarshalBinary(b)
+			}
+			return p.UnmarshalText([]byte(base64.StdEncoding.EncodeToString(b)))
+		}},
 		{name: "PHYPayload.UnmarshalText(raw)", text: true, call: func(r *core.RNG, b []byte) error { var p lorawan.PHYPayload; return p.UnmarshalText(b) }},
 		{name: "MHDR", call: func(r *core.RNG, b []byte) error { var h lorawan.MHDR; return h.UnmarshalBinary(b) }},
 		{name: "FCtrl", call: func(r *core.RNG, b []byte) error { var h lorawan.FCtrl; return h.UnmarshalBinary(b) }},
